@@ -640,3 +640,10 @@ Proof.
   intro W. unfold decode_all. rewrite stream_loop by (auto; lia).
   simpl. destruct (split_stream msgs k); reflexivity.
 Qed.
+
+Lemma bencode_nonvacuous :
+  let m1 := BDict [([97], BList [BInt (-7); BStr []]); ([98], BStr [101])] in
+  let m2 := BInt 10 in
+  wf m1 = true /\ wf m2 = true /\
+  decode_all (firstn 21 (concat (map encode [m1; m2]))) = Some ([m1], [105; 49]).
+Proof. vm_compute. auto. Qed.
